@@ -521,7 +521,7 @@ def r12_enumerate(text, base_line=0):
 def r15_iter(text, base_line=0):
     """R15: `for P in E.iter() {` -> `for __ixN in 0..E.len() { let P = &E[__ixN];` (slice iterator visits elements in index order)"""
     log = []
-    pat = re.compile(r"for\s+(\w+|\([\w\s,]+\))\s+in\s+([\w\.\[\]]+?)\.iter\(\)\s*\{")
+    pat = re.compile(r"for\s+(&?\w+|\([\w\s,]+\))\s+in\s+([\w\.\[\]]+?)\.iter\(\)\s*\{")
     n = 0
     while True:
         m = pat.search(text)
@@ -529,7 +529,10 @@ def r15_iter(text, base_line=0):
             return text, log
         n += 1
         p, e = m.groups()
-        new = "for __ix%d in 0..%s.len() { let %s = &%s[__ix%d];" % (n, e, p, e, n)
+        if p.startswith("&"):       # `for &v in E.iter()`: the element by value
+            new = "for __ix%d in 0..%s.len() { let %s = %s[__ix%d];" % (n, e, p[1:], e, n)
+        else:
+            new = "for __ix%d in 0..%s.len() { let %s = &%s[__ix%d];" % (n, e, p, e, n)
         log.append("R15 line %d: `%s` -> `%s`" % (base_line + text.count("\n", 0, m.start()), " ".join(m.group(0).split()), new))
         text = text[:m.start()] + new + text[m.end():]
 
@@ -604,14 +607,15 @@ def r22_map_collect(text, base_line=0):
     """R22: `let V: Vec<T> = E.iter().map(|x| F).collect();` -> `let mut V: Vec<T> = Vec::new(); for __k in 0..E.len() { let x = &E[__k]; V.push(F); }`
     (what `iter().map().collect()` into a Vec does: push F(x) for each element in order)"""
     log = []
-    pat = re.compile(r"let\s+(\w+)\s*:\s*(Vec<[^=;]+>)\s*=\s*((?:self\s*\.\s*)?\w+)\s*\.iter\(\)\s*\.map\(\|((?:ref\s+)?\w+)\|\s*([^;|]+?)\)\s*\.collect\(\);")
+    pat = re.compile(r"let\s+(\w+)\s*:\s*(Vec<[^=;]+>)\s*=\s*((?:self\s*\.\s*)?\w+)\s*\.iter\(\)\s*\.map\(\|((?:ref\s+|&)?\w+)\|\s*([^;|]+?)\)\s*\.collect\(\);")
     while True:
         m = pat.search(text)
         if not m:
             return text, log
         v, ty, e, x, f = m.groups()
         e = "".join(e.split())
-        new = "let mut %s: %s = Vec::new(); for __k in 0..%s.len() { let %s = &%s[__k]; %s.push(%s); }" % (v, ty.strip(), e, x, e, v, " ".join(f.split()))
+        bind = ("let %s = %s[__k];" % (x[1:], e)) if x.startswith("&") else ("let %s = &%s[__k];" % (x, e))
+        new = "let mut %s: %s = Vec::new(); for __k in 0..%s.len() { %s %s.push(%s); }" % (v, ty.strip(), e, bind, v, " ".join(f.split()))
         new += "\n" * m.group(0).count("\n")
         log.append("R22 line %d: `%s` -> `%s`" % (base_line + text.count("\n", 0, m.start()), " ".join(m.group(0).split()), new.strip()))
         text = text[:m.start()] + new + text[m.end():]
@@ -1094,6 +1098,15 @@ def r47_zip_mut_enumerate(text, base_line=0):
         text = text[:m.start()] + head + text[bo + 1:bc - 1] + " __f = __f + 1; } }" + text[bc:]
 
 
+def r48_fold_max(text, base_line=0):
+    """R48: `E.iter().cloned().fold(INIT, f32::max)` -> `{ let mut __m = INIT; for __t in 0..E.len() { __m = f32::max(__m, E[__t]); } __m }`"""
+    log = []
+    pat = re.compile(r"(\w+)\.iter\(\)\.cloned\(\)\.fold\(([^,]+),\s*f32::max\)")
+    for m in pat.finditer(text):
+        log.append("R48 line %d: `%s` -> left fold written as an index loop" % (base_line + text.count("\n", 0, m.start()), m.group(0)))
+    return pat.sub(lambda m: "{ let mut __m = %s; for __t in 0..%s.len() { __m = f32::max(__m, %s[__t]); } __m }" % (m.group(2).strip(), m.group(1), m.group(1)), text), log
+
+
 def r21_to_owned(text, base_line=0):
     """R21: `.to_owned()` -> `.clone()` (identical for a `Clone` type; vstd specifies `Clone`)"""
     log = []
@@ -1111,9 +1124,9 @@ REWRITES = {
     "R1": r1_compound_assign, "R2": r2_unary_minus, "R3": r3_scale_call, "R6": r6_for_with_continue,
     "R7": r7_isqrt, "R8": r8_step_by, "R9": r9_consts, "R10": r10_tail_continue,
     "R12": r12_enumerate, "R15": r15_iter, "R16": r16_map_index, "R17": r17_for_in_ref_vec, "R18": r18_assert_eq_shape,
-    "R19": r19_last_unwrap, "R20": r20_range_enumerate, "R21": r21_to_owned, "R22": r22_map_collect, "R23": r23_slice_iter, "R24": r24_name_wildcard_loop, "R25": r25_par_map_collect, "R26": r26_zip_iter_mut, "R27": r27_sum_f32, "R28": r28_as_f32, "R29": r29_consuming_for, "R30": r30_rev_take_collect, "R31": r31_zip_map_sum, "R32": r32_chunked_zip_flat_map, "R33": r33_unzip, "R34": r34_chunked_flat_map, "R35": r35_chunk_const, "R36": r36_extend, "R37": r37_for_in_ref, "R38": r38_flat_map3, "R39": r39_unflatten, "R42": r42_assert_eq, "R43": r43_mut_self, "R44": r44_name_tail_call, "R45": r45_min_method, "R47": r47_zip_mut_enumerate, "R46": r46_f32_as_usize, "R40": r40_for_mut_ref, "R41": r41_iter_mut_for_each, "R13": r13_panic_allowed, "R14": r14_panic_forbidden,
+    "R19": r19_last_unwrap, "R20": r20_range_enumerate, "R21": r21_to_owned, "R22": r22_map_collect, "R23": r23_slice_iter, "R24": r24_name_wildcard_loop, "R25": r25_par_map_collect, "R26": r26_zip_iter_mut, "R27": r27_sum_f32, "R28": r28_as_f32, "R29": r29_consuming_for, "R30": r30_rev_take_collect, "R31": r31_zip_map_sum, "R32": r32_chunked_zip_flat_map, "R33": r33_unzip, "R34": r34_chunked_flat_map, "R35": r35_chunk_const, "R36": r36_extend, "R37": r37_for_in_ref, "R38": r38_flat_map3, "R39": r39_unflatten, "R42": r42_assert_eq, "R43": r43_mut_self, "R44": r44_name_tail_call, "R45": r45_min_method, "R47": r47_zip_mut_enumerate, "R48": r48_fold_max, "R46": r46_f32_as_usize, "R40": r40_for_mut_ref, "R41": r41_iter_mut_for_each, "R13": r13_panic_allowed, "R14": r14_panic_forbidden,
 }
-ORDER = ["R42", "R43", "R44", "R28", "R46", "R45", "R47", "R18", "R13", "R14", "R16", "R40", "R41", "R38", "R39", "R36", "R37", "R31", "R32", "R34", "R35", "R33", "R25", "R26", "R29", "R30", "R27", "R20", "R22", "R23", "R24", "R12", "R15", "R17", "R19", "R21", "R10", "R8", "R6", "R9", "R7", "R3", "R1", "R2"]
+ORDER = ["R42", "R43", "R44", "R28", "R46", "R45", "R47", "R48", "R18", "R13", "R14", "R16", "R40", "R41", "R38", "R39", "R36", "R37", "R31", "R32", "R34", "R35", "R33", "R25", "R26", "R29", "R30", "R27", "R20", "R22", "R23", "R24", "R12", "R15", "R17", "R19", "R21", "R10", "R8", "R6", "R9", "R7", "R3", "R1", "R2"]
 
 
 def apply_rewrites(text, names, base_line):
